@@ -25,8 +25,11 @@ LEVEL_TEXT = ('static analysis: (D1) do_segmetrics interpreted with tagged stati
               'drops off-target bins before the adjustment when asked, and returns exactly the bins with adjusted p < alpha; a bin covered by two'
               ' overlapping segments is tested once, with its first residual; p_adjust_bh, interpreted on all orderings of four p-values with and'
               ' without ties (tied p-values share the largest rank), equals the Benjamini-Hochberg step-up formula min(1, min_{j>=i} n p_(j) / '
-              'j). Does not decide numerical agreement of the individual statistics with reference implementations, nor that the CI lies inside '
-              "the bins' range.")
+              'j). (CLI) the `segmetrics / bintest` command line(s), through a model of argparse built from the declarations in commands.py and '
+              'the real _cmd_ body interpreted with readers, library step and writers stubbed: each of the twelve statistic flags lands in its '
+              "own list alone, alpha / bootstrap count / smoothing / --drop-low-coverage and bintest's -a / -t reach the statistics functions as "
+              'given. Does not decide numerical agreement of the individual statistics with reference implementations, nor that the CI lies '
+              "inside the bins' range.")
 TECHNIQUE = "abstract interpretation with tagged statistic summaries (argument provenance), exact rational terms in alpha, seed-dominance rule, exact small-scope evaluation of Benjamini-Hochberg"
 
 SM = "cnvlib.segmetrics"
@@ -522,6 +525,8 @@ def run(chk):
     chk.trust("Python grammar via ast", "np.percentile(x, [lo, hi]) returns the two percentiles in order; np.fromiter consumes `count` items",
               "scipy.stats.norm.cdf is the standard normal CDF (opaque atom)", "the estimators themselves: C19")
     d1(chk, prog)
+    from . import C07
+    C07.d6(chk, prog)            # a segment's bins are looked up per chromosome: the pairing of by_shared_chroms (C07-D6 rule; a .cns covering one chromosome of a multi-chromosome .cnr)
     d3(chk, prog)
     d2(chk, prog)
     chk.clause("D4", "the input segments' own columns are unchanged (decided inside D1: stores go to a copy, new column names only)")
@@ -535,6 +540,8 @@ def run(chk):
 _S = "cnvlib/segmetrics.py"
 _B = "cnvlib/bintest.py"
 MUTANTS = [
+    dict(name="cli: segmetrics --ci lands in the spread statistics", file="cnvlib/commands.py", old='    "--ci",\n    action="append_const",\n    dest="interval_stats",\n    const="ci",\n    help="Confidence interval (by bootstrap).",\n)\nP_segmetrics', new='    "--ci",\n    action="append_const",\n    dest="spread_stats",\n    const="ci",\n    help="Confidence interval (by bootstrap).",\n)\nP_segmetrics'),
+    dict(name="cli: bintest -t not forwarded", file="cnvlib/commands.py", old="do_bintest(cnarr, segments, args.alpha, args.target)", new="do_bintest(cnarr, segments, args.alpha)"),
     dict(name="residuals against the previous segment's mean", file="cnvlib/cnary.py", old="                bins_lr - seg_lr\n", new="                bins_lr - seg_lr * 0\n"),
     dict(name="residuals of outer-overlapping bins", file="cnvlib/cnary.py", old='                        segments, "log2", mode="inner", keep_empty=True', new='                        segments, "log2", mode="outer", keep_empty=True'),
     dict(name="seeded C17e: BH steps from average ranks", edits=[(_B, '    by_descend = p.argsort()[::-1]\n    by_orig = by_descend.argsort()\n    steps = float(len(p)) / np.arange(len(p), 0, -1)\n    q = np.minimum(1, np.minimum.accumulate(steps * p[by_descend]))\n    return q[by_orig]\n', '    steps = float(len(p)) / rankdata(p)\n    by_descend = p.argsort()[::-1]\n    q = np.empty_like(p)\n    q[by_descend] = np.minimum.accumulate((steps * p)[by_descend])\n    return np.minimum(1, q)\n'), (_B, 'from scipy.stats import norm\n', 'from scipy.stats import norm, rankdata\n')]),
